@@ -11,7 +11,7 @@ THEOREM_FILE = "properties/C16.v"
 CASE_DEPS = ["theories/Highwater.v"]
 RULE = ("stream hier-highwater: seeded random fully wired hierarchies with children listed in execution order, long bypass wires, "
         "pass-throughs, through ports, non-negative integer sizes and local_ancillae resources, compiled by the real code with the "
-        "derived resource qubit_highwater; at natural-number points, and at points with some negative parameters at which every port size is still non-negative, every node's reported highwater is compared inside Coq with the "
+        "derived resource qubit_highwater; the compiled tree is read in the order the SOURCE lists the children (an execution order; reorder_like); at natural-number points, and at points with some negative parameters at which every port size is still non-negative, every node's reported highwater is compared inside Coq with the "
         "port-level model of calculate_highwater (tie) and with the wire-level cut specification (spec: ancillae + max over the "
         "cut before the first child, bypass + child highwater during each child, the cut after the last child; and >= total "
         "input size, >= total output size); non-trivial = some node has at least 2 children; distinct by canonical JSON hash")
@@ -50,7 +50,8 @@ def emit(pairs):
         lines.append(f"Definition i{k} : impl_result := {H.impl_to_coq(imp)}.")
         names = H.tree_input_params(imp["tree"]) if imp.get("ok") else set()
         pts = H.points_to_coq(make_points(lib.Rng(f"pts-{lib.case_hash(case)}"), names))
-        items.append(f"(check_highwater i{k} {pts})")
+        lines.append(f"Definition r{k} : routine := {H.routine_to_coq(case['routine'])}.")
+        items.append(f"(check_highwater_src r{k} i{k} {pts})")
     lines.append("Definition results : list (list nat * list nat) :=\n " + E.coq_list(items) + ".\n")
     lines.append("Eval vm_compute in results.\n")
     return "\n".join(lines)
